@@ -25,7 +25,7 @@ RULE = (
     "observation in product/sequential mode, run_mode override_dct) raises before any model runs and leaves every object "
     "unchanged (no invented attribute). Part 'nested': keys that point inside a mapping-valued or list-of-mappings argument, over a generated history of "
     "set / Processor.replace / create_new_processor / deepcopy on a pool of processors; after every step every processor of the pool must hold exactly the "
-    "values of a reference model (an assignment on one copy changes that copy and nothing else). Non-trivial: key depth >=3 with a textual value, or an invalid key; distinct by JSON."
+    "values of a reference model (an assignment on one copy changes that copy and nothing else). Part 'command_line': a generated configuration is written to a YAML file and run through pyxel.run(file, override=['key=text', ...]) (what `pyxel run --override` does) for argument and enabled keys; the tracing models must receive exactly the configured arguments with the addressed ones replaced by what the texts denote. Non-trivial: key depth >=3 with a textual value, or an invalid key; distinct by JSON."
 )
 ASSUMPTIONS = [
     "textual values with quotes (other than a list text whose elements are quoted words or numbers: they denote strings), backslashes, leading/trailing blanks, hex/underscore/inf/nan spellings or Python keywords (True/None) are outside what a text literally denotes unambiguously and are not generated - except the texts 'True' / 'False' assigned to a model's enabled flag, which must set the boolean (a command-line override has no other way to pass one)",
@@ -117,6 +117,26 @@ def valid_cases(draw):
     else:
         v = draw(arg_values)
     return {"proc": ps, "key": key, "kind": kind, "value": v}
+
+
+
+@st.composite
+def cli_cases(draw):
+    """`pyxel run <file> --override key=value` (= pyxel.run(file, override=["key=value"])): the value always arrives as text."""
+    ps = draw(processors())
+    keys = [(k, kind, m) for k, kind, m in valid_keys(ps) if kind in ("arg", "enabled")]
+    key, kind, meta = keys[draw(st.integers(0, len(keys) - 1))]
+    if kind == "enabled":
+        v = draw(st.sampled_from(["True", "False"]))
+    else:
+        v = draw(st.one_of(_plain, _num_text, _seq_text))
+    n_more = draw(st.integers(0, 1))
+    more = []
+    for _ in range(n_more):  # a second --override on another key
+        k2, kind2, _m = keys[draw(st.integers(0, len(keys) - 1))]
+        if k2 != key and kind2 == "arg":
+            more.append([k2, draw(_num_text)])
+    return {"proc": ps, "key": key, "kind": kind, "value": v, "more": more}
 
 
 MUTATIONS = ("typo_last", "typo_first", "typo_middle", "drop_last", "drop_middle", "dup_last", "extra_component", "undeclared_argument",
@@ -300,6 +320,40 @@ def body_valid(case, rec):
         got = proc.get(key)
         rec.check(same_value(got, want), "get_differs_from_assigned", f"{key}: get returns {got!r}, assigned {want!r}")
         rec.check(attribute_names(proc) == names_before, "attribute_invented", f"{key}")
+
+
+
+def body_cli(case, rec):
+    """The override given on the command line reaches exactly the addressed setting, converted to what the text denotes."""
+    import pyxel
+    from vlib import pyx
+    from vlib.gen_pipeline import reference_calls
+    from vprobes import models as P
+
+    ps = case["proc"]
+    rec.cls(f"cli:{case['kind']}", f"cli:overrides:{1 + len(case['more'])}")
+    rec.nt()
+    spec = {"detector": simple_spec(ps["type"], row=3, col=3), "pipeline": copy.deepcopy(ps["pipeline"]), "mode": {"kind": "exposure"}, "readout": {"times": [1.0]}}
+    with rec.must_not_raise("harness_or_setup_failed"):
+        pyx.build(spec, render="yaml", tmp=rec.tmp)  # writes <tmp>/config.yaml and checks that it loads
+    overrides = [[case["key"], case["value"]]] + [list(x) for x in case["more"]]
+    # reference: the configured pipeline with exactly the addressed settings replaced by what the texts denote
+    want = copy.deepcopy(ps["pipeline"])
+    for key, text in overrides:
+        parts = key.split(".")
+        model = next(m for m in want["groups"][parts[1]] if m["name"] == parts[2])
+        if parts[3] == "enabled":
+            model["enabled"] = text == "True"
+        else:
+            model["arguments"][parts[4]] = denote(text)
+    P.reset()
+    with rec.must_not_raise("valid_override_refused"):
+        with pyx.scheduler("synchronous", 1):
+            pyxel.run(rec.tmp / "config.yaml", override=[f"{k}={t}" for k, t in overrides])
+        got = [r["kw"] for r in P.TRACE if "kw" in r]
+        ref = [c["kw"] for c in reference_calls(want, 1)]
+        ok = len(got) == len(ref) and all(set(g) == set(r) and all(same_value(g[k], r[k]) for k in r) for g, r in zip(got, ref))
+        rec.check(ok, "override_not_applied_as_denoted", lambda: f"--override {overrides}: models received {got}, expected {ref}")
 
 
 def body_invalid(case, rec):
@@ -488,7 +542,7 @@ def body_nested(case, rec):
                 return
 
 
-PARTS = {"valid": body_valid, "invalid": body_invalid, "disabled": body_disabled, "nested": body_nested}
+PARTS = {"valid": body_valid, "invalid": body_invalid, "disabled": body_disabled, "nested": body_nested, "command_line": body_cli}
 
 
 def plan(tier):
@@ -498,4 +552,5 @@ def plan(tier):
         Part(name="invalid", kind="gen", strategy=invalid_cases, examples=200 if q else 1500),
         Part(name="disabled", kind="gen", strategy=invalid_cases, examples=40 if q else 300),
         Part(name="nested", kind="gen", strategy=nested_cases, examples=150 if q else 1000),
+        Part(name="command_line", kind="gen", strategy=cli_cases, examples=40 if q else 300),
     ]
